@@ -122,3 +122,17 @@ package electricpb
 //@   requires wfModel(recv) && heldW(recv.mu) && mode != nil && atMostOneNormal(recv) && writeOptsOKe(opts)
 //@   ensures [normal-unique] err == nil ==> atMostOneNormal(recv)
 //@   replay [normal-unique] ElectricUpdateSecondNormal()
+//@
+//@ // C15: page tokens are written and read with the same base64 alphabet (the chain-of-pages argument assumes that a
+//@ // token handed out is accepted again; the codec itself is a library assumption)
+//@ property C15
+//@ func encodePageToken(pageToken) (res, err)
+//@   inline
+//@   track EncodeToString
+//@   ensures [alphabet] calls(EncodeToString) > old(calls(EncodeToString)) ==> lastarg(EncodeToString, 0) == base64.StdEncoding
+//@   ensures [encoded] pageToken != nil && err == nil ==> calls(EncodeToString) == old(calls(EncodeToString)) + 1
+//@ func decodePageToken(token, pageToken) (err)
+//@   inline
+//@   track DecodeString
+//@   ensures [alphabet] calls(DecodeString) > old(calls(DecodeString)) ==> lastarg(DecodeString, 0) == base64.StdEncoding
+//@   ensures [decoded] token != "" ==> calls(DecodeString) == old(calls(DecodeString)) + 1
